@@ -4,9 +4,9 @@ CONSTANTS
   MaxVal = 3
   MaxTime = 2
   TTLs = {0, 1}
-  FixB = FALSE
-  FixC = FALSE
-  FixD = FALSE
+  FixB = TRUE
+  FixC = TRUE
+  FixD = TRUE
   FixE = TRUE
-  Loading = FALSE
+  Loading = TRUE
 INVARIANTS Fresh Demoted ClosedQuiet
